@@ -127,7 +127,7 @@ func newHandlerEnv() *handlerEnv {
 // FuzzHandler: arbitrary bytes to the add-checkpoint endpoint never panic and always get a documented status (C19).
 func FuzzHandler(f *testing.F) {
 	wit.Quiet()
-	wit.EnsureMetrics(nil)
+	wit.ProdMetrics() // as the shipped binary runs by default
 	e := newHandlerEnv()
 	for _, s := range e.seeds {
 		f.Add(s)
